@@ -71,6 +71,18 @@ pub fn directories(tier: &str) -> Vec<(String, BackendCfg, Vec<Op>)> {
             vec![ins(1, 1.0, 0.0, "a"), ins(2, 0.0, 1.0, "b"), Op::Snap, Op::Del { id: 1 }, ins(3, 1.0, 1.0, "c")],
         ));
     }
+    // wide vectors: snapshot and a (non-newest) WAL segment larger than the readers' 8 KiB buffer,
+    // so that frames and records straddle a buffer refill
+    {
+        let wide = |id: u64, salt: usize| Op::Ins { id, v: (0..64).map(|j| (((id as usize * 7919 + j * 104_729 + salt * 613) % 2001) as f32) / 1000.0 - 1.0).collect(), m: meta1("t", &format!("w{id}-{salt}")) };
+        let mut ops: Vec<Op> = (1..=34u64).map(|id| wide(id, 0)).collect();
+        ops.push(Op::Snap);
+        ops.extend((30..=60u64).map(|id| wide(id, 1)));
+        ops.push(Op::Del { id: 3 });
+        ops.push(Op::Restart);
+        ops.push(wide(61, 2));
+        v.push(("wide-vectors-files-larger-than-read-buffer".to_string(), BackendCfg { metric: "euclidean".into(), dim: 64, capacity: 128, snap_interval: 0, rotation: 1 << 20, fsync: "always".into() }, ops));
+    }
     v
 }
 
@@ -227,15 +239,35 @@ enum Fault {
     Delete { file: String },
 }
 
-fn all_faults(b: &Built) -> Vec<Fault> {
+/// Files larger than this are "wide" (the wide-vectors directory): the quick tier enumerates every
+/// bit / length only in the windows where the readers' 8 KiB buffers refill, at both ends of the
+/// file, and on a stride elsewhere; the thorough tier enumerates everything.
+const WIDE_FILE_BYTES: usize = 6000;
+
+fn in_dense_window(off: usize, len: usize) -> bool {
+    off < 48 || off + 48 >= len || (off % 8192) < 12 || (off % 8192) + 12 >= 8192
+}
+
+fn all_faults(b: &Built, tier: &str) -> Vec<Fault> {
     let mut v = Vec::new();
     for (name, data) in &b.image {
+        let wide = data.len() > WIDE_FILE_BYTES && tier != "thorough";
         v.push(Fault::Delete { file: name.clone() });
         for len in 0..data.len() {
+            if wide && !in_dense_window(len, data.len()) && len % 131 != 0 {
+                continue;
+            }
             v.push(Fault::Trunc { file: name.clone(), len });
         }
         for off in 0..data.len() {
+            let dense = !wide || in_dense_window(off, data.len());
+            if !dense && off % 29 != 0 {
+                continue;
+            }
             for bit in 0..8u8 {
+                if !dense && bit != (off / 29 % 8) as u8 {
+                    continue;
+                }
                 v.push(Fault::Flip { file: name.clone(), off, bit });
             }
         }
@@ -245,7 +277,7 @@ fn all_faults(b: &Built) -> Vec<Fault> {
 
 pub fn total_faults(tier: &str) -> usize {
     let scratch = Scratch::new("c13count");
-    directories(tier).iter().map(|(_, cfg, ops)| all_faults(&build(cfg, ops, &scratch)).len()).sum()
+    directories(tier).iter().map(|(_, cfg, ops)| all_faults(&build(cfg, ops, &scratch), tier).len()).sum()
 }
 
 pub fn worker(lo: usize, hi: usize, skip: &[usize], tier: &str) {
@@ -257,7 +289,7 @@ pub fn worker(lo: usize, hi: usize, skip: &[usize], tier: &str) {
     for (name, cfg, ops) in directories(tier) {
         let b = build(&cfg, &ops, &scratch);
         dirs_meta.push(json!({"name": name, "files": b.image.iter().map(|(k, v)| (k.clone(), v.len())).collect::<BTreeMap<_, _>>(), "docs": b.dump.len()}));
-        let faults = all_faults(&b);
+        let faults = all_faults(&b, tier);
         let dir_base = base;
         base += faults.len();
         if dir_base >= hi || base <= lo {
@@ -354,8 +386,13 @@ pub fn run(tier: &str, replay: Option<&str>) -> i32 {
     }
     let mut ev = vcore::evidence::Evidence::new("C13", tier, "fault_enumeration");
     let mut rep = vcore::findings::Reporter::new("C13");
+    let t0 = std::time::Instant::now();
     let total = total_faults(tier);
-    let (res, aborted) = vcore::par::run_chunked(total, 1500);
+    let t1 = t0.elapsed();
+    let (res, aborted) = vcore::par::run_chunked(total, 400);
+    if std::env::var("C13_TIMING").is_ok() {
+        eprintln!("C13 timing: count {:?}, chunks {:?}", t1, t0.elapsed());
+    }
     let mut tot: BTreeMap<&str, u64> = BTreeMap::new();
     let mut outcomes: BTreeSet<u64> = BTreeSet::new();
     let mut samples = Vec::new();
